@@ -951,6 +951,7 @@ fn dump<'tcx>(tcx: TyCtxt<'tcx>) {
     let mut adts = Vec::new();
     let mut impls = Vec::new();
     let mut traits = Vec::new();
+    let mut aliases = Vec::new();
     for ldid in tcx.hir_crate_items(()).definitions() {
         let did = ldid.to_def_id();
         match tcx.def_kind(ldid) {
@@ -1032,6 +1033,17 @@ fn dump<'tcx>(tcx: TyCtxt<'tcx>) {
                 o.push(("bt", cx.macro_bt(span)));
                 impls.push(J::O(o));
             }
+            DefKind::TyAlias => {
+                let t = tcx.type_of(did).instantiate_identity().skip_norm_wip();
+                let gens: Vec<J> = tcx.generics_of(did).own_params.iter().map(|p| J::s(p.name.to_string())).collect();
+                aliases.push(obj! {
+                    "path": J::s(cx.path(did)),
+                    "ty": cx.ty(t),
+                    "generics": J::A(gens),
+                    "loc": cx.loc_j(tcx.def_span(ldid)),
+                    "pub": J::B(tcx.visibility(did).is_public()),
+                });
+            }
             DefKind::Trait => {
                 let mut items = Vec::new();
                 for it in tcx.associated_items(did).in_definition_order() {
@@ -1064,6 +1076,7 @@ fn dump<'tcx>(tcx: TyCtxt<'tcx>) {
         "adts": J::A(adts),
         "impls": J::A(impls),
         "traits": J::A(traits),
+        "aliases": J::A(aliases),
         "bodies": J::A(bodies),
     };
     let mut out = String::with_capacity(64 << 20);
